@@ -48,13 +48,16 @@ def membersTell (m : Members.State) (op : Members.Op) : Members.State :=
   | .reject => m
 
 /-- One step of the abstract membership relation.  `before` / `after`: the answers of `crates()` around the call
-(a removal drops the crates that are no longer listed). -/
+(a removal drops the crates that are no longer listed).  A creation that reports the id of a live crate / live
+track contradicts the Spec (`none`). -/
 def membersNext (m : Members.State) (op : Op) (r : Res Out) (before after : List Id) : Option Members.State :=
   match op with
-  | .createRoot _ | .createSub _ _ => some (if r.isOk then membersTell m (.newCrate (outId r)) else m)
+  | .createRoot _ | .createSub _ _ =>
+    if r.isOk then (if m.crates.contains (outId r) then none else some (membersTell m (.newCrate (outId r)))) else some m
   | .removeCrate _ =>
     some (if r.isOk then membersTell m (.dropCrates (before.filter fun i => !after.contains i)) else m)
-  | .createTrack => some (if r.isOk then membersTell m (.newTrack (outId r)) else m)
+  | .createTrack =>
+    if r.isOk then (if m.tracks.contains (outId r) then none else some (membersTell m (.newTrack (outId r)))) else some m
   | .removeTrack t => (Members.step m (.dropTrack t)).next m r.isOk
   | .addTrack c t => (Members.step m (.add c t)).next m r.isOk
   | .removeTrackFrom c t => (Members.step m (.remove c t)).next m r.isOk
@@ -67,6 +70,16 @@ def membersTrace (s : Schema) : Db → Members.State → List Op → Option Memb
     match membersNext m op (step s db op).2 (dbCrates db) (dbCrates (step s db op).1) with
     | none => none
     | some m' => membersTrace s (step s db op).1 m' ops
+
+/-- The membership state a raw database describes (crates, tracks with a path, stored membership rows). -/
+def absMembers (db : Db) : Members.State :=
+  ⟨db.crate.map (·.id), (db.track.filter (·.hasPath)).map (·.id), db.ctl⟩
+
+/-- Does some call of the continuation `ops` (run from `db`) report the id `y` for a newly created crate?
+(The 1.x schemas allocate MAX(id)+1 / rowid, so the id of a removed crate can be handed out again.) -/
+def reissues (s : Schema) : Db → List Op → Id → Bool
+  | _, [], _ => false
+  | db, op :: ops, y => decide ((step s db op).2 = .ok (.id y) ∧ forestOp op ≠ none) || reissues s (step s db op).1 ops y
 
 /-- The (crate, track) pairs an operation is ABOUT (C08's frame property: the membership of every other pair is
 unchanged).  `f` = the forest before the call (removing a crate is about its whole sub-tree). -/
